@@ -141,7 +141,7 @@ def main():
 
     scal = [("laplace", None), ("helmholtz", 1.3 + 0.4j), ("modified_helmholtz", 0.9)]
     if not ctx.quick:
-        scal += [("helmholtz", 2.0), ("modified_helmholtz", 2.5)]
+        scal += [("helmholtz", 2.0), ("modified_helmholtz", 2.5), ("helmholtz", 0.9 - 0.3j)]
     orders = [4] if ctx.quick or ctx.worker else [2, 4, 6]
     modes = ["evaluate", "sparse"]
     variants = ["whole", "segment"]
@@ -157,6 +157,8 @@ def main():
                 if ctx.quick and mode == "sparse" and g2name is not None:
                     continue
                 for fam, k in scal:
+                    if isinstance(k, complex) and gname == "screen3":
+                        k = complex(np.conj(k))   # Im k < 0 on one of the grids
                     for op in O.SCALAR_OPS:
                         for variant in variants + ["swapped"]:
                             if ctx.quick and (mode == "sparse" and variant == "segment"):
@@ -188,7 +190,7 @@ def main():
                     for variant in variants:
                         if ctx.quick and mode == "sparse":
                             continue
-                        k = 1.1 + 0.2j if opname == "electric_field" else 0.9
+                        k = (1.1 + 0.2j if gname != "screen3" else 1.1 - 0.2j) if opname == "electric_field" else 0.9
                         cid = "b:%s%s:maxwell.%s:k=%s:%s:o%d:%s" % (gname, "|" + g2name if g2name else "", opname, k, variant, order, mode)
                         if not ctx.want(cid):
                             continue
